@@ -18,6 +18,10 @@
 #include <algorithm>
 #include <thread>
 #include <malloc.h>
+#include <cerrno>
+#include <new>
+#include <unistd.h>
+#include <sys/wait.h>
 #include "tfhe.h"
 #include "tfhe_io.h"
 #include "lwe-functions.h"
@@ -36,15 +40,18 @@ extern "C" void *__libc_realloc(void *, size_t); extern "C" void *__libc_memalig
 static const size_t TAB = 1 << 22;
 static void *tab_p[TAB]; static size_t tab_n[TAB]; static volatile bool tracking = false;
 static size_t live_blocks = 0, live_bytes = 0;
+// fault injection: while af_on, the af_fail_at-th allocation request of the process fails (returns NULL, errno ENOMEM)
+static volatile bool af_on = false; static volatile long af_count = 0, af_fail_at = 0;
+static inline bool af_fail() { if (!af_on) return false; af_count++; if (af_count == af_fail_at) { errno = ENOMEM; return true; } return false; }
 static void rec(void *p, size_t n) { if (!p || !tracking) return; size_t h = ((size_t) p >> 4) & (TAB - 1); while (tab_p[h] && tab_p[h] != (void *) 1) h = (h + 1) & (TAB - 1); tab_p[h] = p; tab_n[h] = n; live_blocks++; live_bytes += n; }
 static void unrec(void *p) { if (!p) return; size_t h = ((size_t) p >> 4) & (TAB - 1); size_t probes = 0;
     while (tab_p[h] && probes < TAB) { if (tab_p[h] == p) { tab_p[h] = (void *) 1; live_blocks--; live_bytes -= tab_n[h]; return; } h = (h + 1) & (TAB - 1); probes++; } }
-extern "C" void *malloc(size_t n) { void *p = __libc_malloc(n); rec(p, n); return p; }
-extern "C" void *calloc(size_t a, size_t b) { void *p = __libc_calloc(a, b); rec(p, a * b); return p; }
+extern "C" void *malloc(size_t n) { if (af_fail()) return NULL; void *p = __libc_malloc(n); rec(p, n); return p; }
+extern "C" void *calloc(size_t a, size_t b) { if (af_fail()) return NULL; void *p = __libc_calloc(a, b); rec(p, a * b); return p; }
 extern "C" void *realloc(void *q, size_t n) { if (tracking) unrec(q); void *p = __libc_realloc(q, n); rec(p, n); return p; }
-extern "C" void *memalign(size_t a, size_t n) { void *p = __libc_memalign(a, n); rec(p, n); return p; }
-extern "C" void *aligned_alloc(size_t a, size_t n) { void *p = __libc_memalign(a, n); rec(p, n); return p; }
-extern "C" int posix_memalign(void **out, size_t a, size_t n) { void *p = __libc_memalign(a, n); if (!p) return 12; rec(p, n); *out = p; return 0; }
+extern "C" void *memalign(size_t a, size_t n) { if (af_fail()) return NULL; void *p = __libc_memalign(a, n); rec(p, n); return p; }
+extern "C" void *aligned_alloc(size_t a, size_t n) { if (af_fail()) return NULL; void *p = __libc_memalign(a, n); rec(p, n); return p; }
+extern "C" int posix_memalign(void **out, size_t a, size_t n) { if (af_fail()) return 12; void *p = __libc_memalign(a, n); if (!p) return 12; rec(p, n); *out = p; return 0; }
 extern "C" void free(void *p) { if (tracking) unrec(p); __libc_free(p); }
 static void live_sizes(V &r) { std::vector<ll> v; for (size_t i = 0; i < TAB; i++) if (tab_p[i] && tab_p[i] != (void *) 1) v.push_back((ll) tab_n[i]); std::sort(v.begin(), v.end()); for (ll x : v) r.push_back(x); }
 static void reset_tab() { memset(tab_p, 0, sizeof tab_p); live_blocks = 0; live_bytes = 0; }
@@ -309,6 +316,68 @@ static void op_karamem(const V &a, V &r) {
     r.push_back((ll) hw); r.push_back(guards); r.push_back(right);
 }
 
+#ifdef VERIF_LEDGER
+// allocfail <fn> <N> <k> <l> <Bgbit> <seed> : every allocation request made inside one library call fails in turn (one forked child per
+//   fault point).  A call whose allocation fails may report it (std::bad_alloc reaches the caller, or the process dies); it must not
+//   return normally with a result different from the one of the undisturbed call.
+//   fn 0-2 torusPolynomial{Mult,AddMulR,SubMulR}Karatsuba  3-5 the same through the FFT  6 tGswExternMulToTLwe  7 tGswFFTExternMulToTLwe
+//      8 tGswExternProduct  9 tLweSymDecryptT
+//   prints: allocations of the undisturbed call, #right, #reported (exception), #died, #silently wrong, first fault point that was silently wrong (0 = none)
+struct AFCase {
+    int fn, N, k, l, B; TorusPolynomial *res, *tb, *res0; IntPolynomial *ia; TLweParams *tp; TGswParams *gp; TGswSample *g; TGswSampleFFT *gf; TLweSample *acc, *acc0, *out; TLweKey *tk;
+    Torus32 dec;
+    void reset() { if (fn <= 5) for (int j = 0; j < N; j++) res->coefsT[j] = res0->coefsT[j]; else for (int i = 0; i <= k; i++) for (int j = 0; j < N; j++) { acc->a[i].coefsT[j] = acc0->a[i].coefsT[j]; out->a[i].coefsT[j] = 0x1234567; } dec = 0; }
+    void call() {
+        switch (fn) {
+        case 0: torusPolynomialMultKaratsuba(res, ia, tb); break;   case 1: torusPolynomialAddMulRKaratsuba(res, ia, tb); break;
+        case 2: torusPolynomialSubMulRKaratsuba(res, ia, tb); break; case 3: torusPolynomialMultFFT(res, ia, tb); break;
+        case 4: torusPolynomialAddMulRFFT(res, ia, tb); break;       case 5: torusPolynomialSubMulRFFT(res, ia, tb); break;
+        case 6: tGswExternMulToTLwe(acc, g, gp); break;              case 7: tGswFFTExternMulToTLwe(acc, gf, gp); break;
+        case 8: tGswExternProduct(out, g, acc, gp); break;           default: dec = tLweSymDecryptT(acc, tk, 8); break;
+        }
+    }
+    void snapshot(std::vector<Torus32> &v) { v.clear(); if (fn <= 5) for (int j = 0; j < N; j++) v.push_back(res->coefsT[j]);
+        else { for (int i = 0; i <= k; i++) for (int j = 0; j < N; j++) { v.push_back(acc->a[i].coefsT[j]); v.push_back(out->a[i].coefsT[j]); } v.push_back(dec); } }
+};
+static void op_allocfail(const V &a, V &r) {
+    if (a[0] > 2 && a[1] != 1024) { r.push_back(-1); return; }   // everything but Karatsuba goes through the FFT (N = 1024 only)
+    AFCase c; c.fn = (int) a[0]; c.N = (int) a[1]; c.k = (int) a[2]; c.l = (int) a[3]; c.B = (int) a[4]; srand((unsigned) a[5]);
+    auto rnd = []() { return (int32_t) (((unsigned) rand() << 16) ^ (unsigned) rand()); };
+    c.tp = new_TLweParams(c.N, c.k, 0., 1.); c.gp = new_TGswParams(c.l, c.B, c.tp);
+    c.res = new_TorusPolynomial(c.N); c.tb = new_TorusPolynomial(c.N); c.res0 = new_TorusPolynomial(c.N); c.ia = new_IntPolynomial(c.N);
+    for (int j = 0; j < c.N; j++) { c.res0->coefsT[j] = rnd(); c.tb->coefsT[j] = rnd(); c.ia->coefs[j] = rnd() % 1024; }
+    c.g = new_TGswSample(c.gp); c.gf = c.N == 1024 ? new_TGswSampleFFT(c.gp) : NULL; c.acc = new_TLweSample(c.tp); c.acc0 = new_TLweSample(c.tp); c.out = new_TLweSample(c.tp); c.tk = new_TLweKey(c.tp);
+    for (int p = 0; p < (c.k + 1) * c.l; p++) for (int i = 0; i <= c.k; i++) for (int j = 0; j < c.N; j++) c.g->all_sample[p].a[i].coefsT[j] = rnd();
+    for (int i = 0; i <= c.k; i++) for (int j = 0; j < c.N; j++) c.acc0->a[i].coefsT[j] = rnd();
+    for (int i = 0; i < c.k; i++) for (int j = 0; j < c.N; j++) c.tk->key[i].coefs[j] = rand() & 1;
+    if (c.N == 1024) tGswToFFTConvert(c.gf, c.g, c.gp);
+    std::vector<Torus32> ref, got; ref.reserve(4 * (c.k + 1) * c.N + 8); got.reserve(4 * (c.k + 1) * c.N + 8);
+    c.reset(); c.call(); c.snapshot(ref);                       // warm-up (per-thread FFT state exists from here on) and reference
+    c.reset(); af_count = 0; af_fail_at = 0; af_on = true; c.call(); af_on = false; long total = af_count; c.snapshot(got);
+    ll right = 0, reported = 0, died = 0, wrong = 0, first = 0;
+    if (got != ref) { wrong++; first = -1; }
+    for (long kf = 1; kf <= total && kf <= 64; kf++) {
+        int fd[2]; if (pipe(fd)) abort();
+        fflush(stdout);
+        pid_t pid = fork();
+        if (pid == 0) {
+            close(fd[0]); char oc = 'r';
+            c.reset(); af_count = 0; af_fail_at = kf;
+            try { af_on = true; c.call(); af_on = false; c.snapshot(got); oc = (got == ref) ? 'r' : 'w'; }
+            catch (...) { af_on = false; oc = 'e'; }
+            if (write(fd[1], &oc, 1) != 1) _exit(3);
+            _exit(0);
+        }
+        close(fd[1]); char oc = 'd'; if (read(fd[0], &oc, 1) != 1) oc = 'd'; close(fd[0]);
+        int st = 0; waitpid(pid, &st, 0);
+        if (oc == 'r') right++; else if (oc == 'e') reported++; else if (oc == 'w') { wrong++; if (!first) first = kf; } else died++;
+    }
+    r.push_back(total); r.push_back(right); r.push_back(reported); r.push_back(died); r.push_back(wrong); r.push_back(first);
+    delete_TLweKey(c.tk); delete_TLweSample(c.out); delete_TLweSample(c.acc0); delete_TLweSample(c.acc); if (c.gf) delete_TGswSampleFFT(c.gf); delete_TGswSample(c.g);
+    delete_IntPolynomial(c.ia); delete_TorusPolynomial(c.res0); delete_TorusPolynomial(c.tb); delete_TorusPolynomial(c.res); delete_TGswParams(c.gp); delete_TLweParams(c.tp);
+}
+#endif
+
 int main() {
     std::string line;
     while (std::getline(std::cin, line)) {
@@ -325,6 +394,7 @@ int main() {
 #ifdef VERIF_LEDGER
         else if (op == "ledger") op_ledger(a, r);
         else if (op == "lifeleak") op_lifeleak(a, r);
+        else if (op == "allocfail") op_allocfail(a, r);
 #endif
         else { puts("NOOP"); fflush(stdout); continue; }
         printf("ok"); for (ll v : r) printf(" %lld", v); putchar('\n'); fflush(stdout);
